@@ -942,39 +942,60 @@ func c18r10(p *Prog, r *Reporter) {
 				r.OK(name, construct, pos, "include mask alone, where exclusive is false and exclude is empty (the exclude mask is zero)")
 			}
 		case "C":
-			// the relation filter assigned in the same block, before this store
-			var mk *ssa.Call
-			for _, ins := range st.Block().Instrs {
-				if ins == ssa.Instruction(st) {
-					break
-				}
-				if s2, ok := ins.(*ssa.Store); ok {
-					if fa, ok := s2.Addr.(*ssa.FieldAddr); ok && typeName(fa.X.Type()) == "compiledQuery" && fieldName(fa.X.Type(), fa.Field) == "relationFilter" {
-						mk = callOf(s2.Val)
+			// the relation filter is (re)built on every path before this store; every such assignment is checked
+			var mks []*ssa.Store
+			for _, b2 := range fn.Blocks {
+				for _, i2 := range b2.Instrs {
+					if s2, ok := i2.(*ssa.Store); ok {
+						if fa, ok := s2.Addr.(*ssa.FieldAddr); ok && typeName(fa.X.Type()) == "compiledQuery" && fieldName(fa.X.Type(), fa.Field) == "relationFilter" {
+							mks = append(mks, s2)
+						}
 					}
 				}
 			}
+			built := &MustFlow{Fn: fn, InstrGen: func(i2 ssa.Instruction) bool {
+				for _, s2 := range mks {
+					if i2 == ssa.Instruction(s2) {
+						return true
+					}
+				}
+				return false
+			}}
+			built.Run()
 			switch {
 			case !underTarget:
 				r.Bad(name, construct, pos, "the relation filter is stored where `hasTarget` is not known true")
-			case mk == nil || mk.Common().StaticCallee() == nil || cname(mk.Common().StaticCallee()) != "NewRelationFilter":
-				r.Bad(name, construct, pos, "the relation filter is not (re)built by NewRelationFilter in the same block: a stale target or filter would be used")
+			case !built.Before(st):
+				r.Bad(name, construct, pos, "the relation filter is not (re)built by NewRelationFilter on every path to this store: a stale target or filter would be used")
 			default:
-				ik, _ := classify(mk.Common().Args[0])
-				tgt, isP := mk.Common().Args[1].(*ssa.Parameter)
-				switch {
-				case !isP || tgt.Name() != "target":
-					r.Bad(name, construct, pos, "the relation filter's target is "+apath(mk.Common().Args[1])+", not the `target` argument")
-				case ik == "A":
-					r.OK(name, construct, pos, "NewRelationFilter(&maskFilter, target): include, exclude and target clauses all present")
-				case ik == "B":
-					if why := noExcl(mk); why != "" {
-						r.Bad(name, construct, pos, "the relation filter wraps the include mask alone, but "+why+": Without/Exclusive would be ignored for fixed targets")
-					} else {
-						r.OK(name, construct, pos, "NewRelationFilter(include, target) where the exclude mask is zero")
+				bad, good := "", ""
+				for _, s2 := range mks {
+					mk := callOf(s2.Val)
+					if mk == nil || mk.Common().StaticCallee() == nil || cname(mk.Common().StaticCallee()) != "NewRelationFilter" {
+						bad = "the relation filter is assigned something other than NewRelationFilter(...)"
+						continue
 					}
-				default:
-					r.Bad(name, construct, pos, "the relation filter wraps "+apath(mk.Common().Args[0])+", which is neither the mask filter nor its include mask")
+					ik, _ := classify(mk.Common().Args[0])
+					tgt, isP := mk.Common().Args[1].(*ssa.Parameter)
+					switch {
+					case !isP || tgt.Name() != "target":
+						bad = "the relation filter's target is " + apath(mk.Common().Args[1]) + ", not the `target` argument"
+					case ik == "A":
+						good = "NewRelationFilter(&maskFilter, target): include, exclude and target clauses all present"
+					case ik == "B":
+						if why := noExcl(mk); why != "" {
+							bad = "the relation filter wraps the include mask alone, but " + why + ": Without/Exclusive would be ignored for fixed targets"
+						} else {
+							good = "NewRelationFilter(include, target) where the exclude mask is zero"
+						}
+					default:
+						bad = "the relation filter wraps " + apath(mk.Common().Args[0]) + ", which is neither the mask filter nor its include mask"
+					}
+				}
+				if bad != "" {
+					r.Bad(name, construct, pos, bad)
+				} else {
+					r.OK(name, construct, pos, good)
 				}
 			}
 		case "D":
